@@ -59,8 +59,8 @@ CHECKS = {
          "SLHA.tla: an operational model of the reader (append lines, ordered passes over same-named blocks, scale filter, token conversion) is model-checked exhaustively against the denotation of a file (last assignment per block/key among the blocks read) and against the rewrite classes of the property, with wrong reader variants as non-vacuity checks; TLC-enumerated abstract files are rendered in several concrete layouts and in the normal form of their denotation, read by the real GM2_slha_io, and the recorded parameters/exception classes are validated by TLC (Trace_C13.tla); every documented key of the three formats is changed alone and must move exactly the documented parameter; whole-program runs of rewritten complete inputs must give the same result; every GM2CalcConfig entry is read with every value at and around its documented range (rejected iff invalid, stored as given otherwise)",
          "bounded files (MaxLen 3 quick / 5 thorough over a 19-symbol alphabet); matrix blocks only through whole-program runs; trusted: TLC, renderer (harness/lib/slha_render.py)",
          "TLC model checking of SLHA.tla + TLA+ trace validation (Trace_C13.tla) of the real reader on TLC-generated files", "DESIGN 10.3 and 5/C13"),
- "C14": ("model_checking; a subset of the same runs is repeated under valgrind memcheck on the plain build (uninitialised memory)",
-         "CLI.tla: the program as a machine (argument parsing, source, GM2CalcConfig entries in file order, reader/model outcome per input class, writer, catch, exit) is model-checked for all argument vectors, configuration-entry sequences, all 480 option vectors and six input classes: termination under fairness, exit status in {0,1}, every failure diagnosed, clean stdout, and membership in the declarative predicate Allowed; wrong variants demonstrate non-vacuity.  TLC-enumerated environments are concretised (real argv, real input files per input class, real GM2CalcConfig text, stdin) and run on the ASan+UBSan(+float-cast-overflow)+leak build; Trace_C14.tla replays CLI.tla's own actions for each environment and requires the observed exit status / stdout items to equal the machine's; mutated shipped inputs, directed extreme values and random bytes are validated against Allowed",
+ "C14": ("model_checking",
+         "CLI.tla: the program as a machine (argument parsing, source, GM2CalcConfig entries in file order, reader/model outcome per input class, writer, catch, exit) is model-checked for all argument vectors, configuration-entry sequences, all 480 option vectors and six input classes: termination under fairness, exit status in {0,1}, every failure diagnosed, clean stdout, and membership in the declarative predicate Allowed; wrong variants demonstrate non-vacuity.  TLC-enumerated environments are concretised (real argv, real input files per input class, real GM2CalcConfig text, stdin) and run on the ASan+UBSan(+float-cast-overflow)+leak build; Trace_C14.tla replays CLI.tla's own actions for each environment and requires the observed exit status / stdout items to equal the machine's; mutated shipped inputs, directed extreme values and random bytes are validated against Allowed; a subset of the same runs is repeated under valgrind memcheck on the plain build (uninitialised memory)",
          "memory safety and UB are observed through the sanitizer build, not derived from the model; 'any byte sequence' is sampled; trusted: stdout abstraction (harness/lib/cli.py), TLC",
          "TLC model checking of CLI.tla + trace validation replaying CLI.tla actions (Trace_C14.tla) on executions of the sanitizer build", "DESIGN 10.3 and 5/C14"),
  "C15": ("model_checking",
